@@ -13,10 +13,10 @@ FORBIDDEN = re.compile(r'\b(sorry|admit|native_decide|bv_decide|implemented_by|u
 
 # which Lean modules carry the property theorems of each property
 PROP_MODULES = {
-    'C01': ['Props.C01', 'Props.C01Stream', 'Props.C01Placement', 'Props.EndToEnd', 'Props.TieA3', 'Props.TieA3Kanji'], 'C02': ['Props.C02', 'Props.C02Model', 'Props.C01Placement', 'Props.TieA', 'Props.TieA2', 'Props.TieA3', 'Props.TieA4'], 'C03': ['Props.C03Tables', 'Props.C03', 'Props.C03Message', 'Props.C03Distance', 'Props.TieA2', 'Props.TieA3'], 'C04': ['Props.C04', 'Props.EncodeLevel', 'Props.TieA', 'Props.TieA2', 'Props.TieA6'],
+    'C01': ['Props.C01', 'Props.C01Stream', 'Props.C01Placement', 'Props.EndToEnd', 'Props.TieA3', 'Props.TieA3Kanji', 'Props.TieA5'], 'C02': ['Props.C02', 'Props.C02Model', 'Props.C01Placement', 'Props.TieA', 'Props.TieA2', 'Props.TieA3', 'Props.TieA4'], 'C03': ['Props.C03Tables', 'Props.C03', 'Props.C03Message', 'Props.C03Distance', 'Props.TieA2', 'Props.TieA3'], 'C04': ['Props.C04', 'Props.EncodeLevel', 'Props.TieA', 'Props.TieA2', 'Props.TieA6'],
     'C05': ['Props.C05', 'Props.EncodeLevel', 'Props.TieA', 'Props.TieA2'], 'C06': ['Props.C06', 'Props.EncodeLevel', 'Props.TieA2', 'Props.TieA3'], 'C07': ['Props.C07', 'Props.EncodeLevel', 'Props.TieA', 'Props.TieA2', 'Props.TieA3', 'Props.TieA3Kanji', 'Props.TieA6'], 'C08': ['Props.C08', 'Props.C08Roundtrip', 'Props.TieA', 'Props.TieA2'], 'C09': ['Props.C09', 'Props.C09Png', 'Props.C09Docs', 'Props.TieA'],
     'C10': ['Props.C10', 'Props.C10Accept', 'Props.C10Docs'], 'C11': ['Props.C11Align1', 'Props.C11Align2', 'Props.C11Align3', 'Props.C11Align4', 'Props.C11Align5', 'Props.C11Align6',
-            'Props.C11Align7', 'Props.C11Align8', 'Props.C11', 'Props.C11Colormap', 'Props.C09Png', 'Props.C11Svg', 'Props.TieA'], 'C12': ['Props.C12', 'Props.C12Routes'], 'C13': ['Props.C13', 'Props.TieA2', 'Props.TieA3', 'Props.TieA3Kanji'], 'C14': ['Props.C14', 'Props.C14NoCrash', 'Props.C14Colour', 'Props.C14Serializers', 'Props.C14Routes', 'Props.TieA'],
+            'Props.C11Align7', 'Props.C11Align8', 'Props.C11', 'Props.C11Colormap', 'Props.C09Png', 'Props.C11Svg', 'Props.TieA'], 'C12': ['Props.C12', 'Props.C12Routes'], 'C13': ['Props.C13', 'Props.TieA2', 'Props.TieA3', 'Props.TieA3Kanji', 'Props.TieA5'], 'C14': ['Props.C14', 'Props.C14NoCrash', 'Props.C14Colour', 'Props.C14Serializers', 'Props.C14Routes', 'Props.TieA'],
     'C15': ['Props.C15'], 'C16': ['Props.C16', 'Props.C16Epc'],
 }
 
